@@ -198,6 +198,8 @@ def r3(ctx, F, rule, sfx):
         # the tested normal is the normal of the plane the record is created for (the V atom is about cell.clipping_planes[K].plane.n by construction
         # of the classifier; a test on another plane would be an unknown leaf and fail closed)
         viv = [e for e in s.ip.events if e.callee and strip_generics(e.callee).endswith('vector_is_valid')]
+        # (the one-off evaluation of a stream adaptor's closure on a symbolic `item(stream)` is not a test of this loop's tetrahedron)
+        viv = [e for e in viv if 'item(' not in repr(e.fargs[1])]
         ok = len(viv) >= 1 and all(repr(e.fargs[1]) == s.hs + '.plane.n' and repr(e.fargs[0]) == 'cell.dimensionality' for e in viv)
         ctx.check(rule, '%s:filter-tests-same-plane%s' % (which, sfx), ok, [repr(e.fargs[1])[-40:] for e in viv], 'cell.dimensionality.vector_is_valid(clipping_planes[tet.plane_idx].normal())', where(s.body), key_extra='sameplane')
 
